@@ -387,7 +387,7 @@ pub fn json_routes(seed: u64, n_random: usize, blocks: usize, out: &str) -> Resu
     let cfg = crate::r#gen::GenCfg { blocks, max_txs: 4, inscriptions: true, runes: true, update_every: 0, reopen: false, dup_coinbase: false, junk: false };
     scenarios.push(crate::r#gen::ledger(seed * 1000 + i as u64, &format!("w{i}"), &cfg, &["sats", "runes", "addresses"], "regtest"));
     if i % 2 == 0 {
-      scenarios.push(crate::r#gen::runes(seed * 1000 + i as u64, &format!("v{i}"), blocks.max(20), &["sats", "runes", "addresses"]));
+      scenarios.push(crate::r#gen::runes(seed * 1000 + i as u64, &format!("v{i}"), blocks.max(20), &["sats", "runes", "addresses"], "regtest"));
     }
   }
   for sc in scenarios {
